@@ -279,6 +279,10 @@ VSfdefine(int32 vkey, const char *field, int32 localtype, int32 order)
     if ((vs == NULL) || (scanattrs(field, &ac, &av) == FAIL) || (ac != 1))
         HGOTO_ERROR(DFE_ARGS, FAIL);
 
+    /* a field is defined for a vdata that is being written */
+    if (vs->access != 'w')
+        HGOTO_ERROR(DFE_BADACC, FAIL);
+
     /* The order of a variable is stored in a 16-bit number, so have to keep this limit -QAK */
     if (order < 1 || order > MAX_ORDER)
         HGOTO_ERROR(DFE_BADORDER, FAIL);
